@@ -94,6 +94,11 @@ pub trait World {
     fn word_addrs(&self) -> Vec<usize> {
         Vec::new()
     }
+    /// The atomic-operation log of the crate call proper, when the world's own observation calls
+    /// (which also go through the crate) must be kept out of it.
+    fn take_op_atoms(&mut self) -> Option<Vec<async_lock::__verif::AtomicOp>> {
+        None
+    }
     /// Further contention (guards alive, ...) for the beam search's ranking.
     fn score(&self) -> usize {
         0
@@ -110,8 +115,9 @@ pub type Maker = fn(&str) -> Option<Box<dyn World>>;
 
 /// The atomic operations the crate performed since the last call (hook: `record_atomics`), in the
 /// model's print format: `w<i>:<op>(<operands>;<orderings>)=<result>`, comma separated; `-` if none.
-pub fn take_atoms(addrs: &[usize]) -> String {
-    let log = async_lock::__verif::take_atomic_log();
+pub fn take_atoms(addrs: &[usize], own: Option<Vec<async_lock::__verif::AtomicOp>>) -> String {
+    let rest = async_lock::__verif::take_atomic_log();
+    let log = own.unwrap_or(rest);
     if log.is_empty() {
         return "-".to_string();
     }
@@ -150,6 +156,8 @@ impl Runner {
         let toks: Vec<&str> = op.split_whitespace().collect();
         // before the operation: it may free the primitive
         let addrs = self.world.word_addrs();
+        // whatever the harness's own observations did since the last op is not part of this one
+        let _ = async_lock::__verif::take_atomic_log();
         let out;
         if toks.first() == Some(&"settle") {
             // run woken futures to quiescence, smallest id first, bounded
@@ -176,7 +184,8 @@ impl Runner {
                 }
             }
             out = format!("settled {}", polls);
-            let atoms = take_atoms(&addrs);
+            let own = self.world.take_op_atoms();
+        let atoms = take_atoms(&addrs, own);
             let obs = format!("{} | w={} | {} at={}", out, fmt_list(&all_wakes), self.world.snapshot(), atoms);
             let mut mons = self.world.monitors(&self.woken);
             let _ = async_lock::__verif::take_atomic_log();
@@ -199,7 +208,8 @@ impl Runner {
             self.woken.insert(*t / 4);
         }
         // a future that completed or was dropped can no longer be "woken and not re-polled"
-        let atoms = take_atoms(&addrs);
+        let own = self.world.take_op_atoms();
+        let atoms = take_atoms(&addrs, own);
         let obs = format!("{} | w={} | {} at={}", out, fmt_list(&wakes), self.world.snapshot(), atoms);
         let mons = self.world.monitors(&self.woken);
         // the monitors' own probes (try_lock, try_read, ...) are not part of the next operation
